@@ -51,7 +51,14 @@ def calib_worker(case):
     shutil.rmtree(out, ignore_errors=True)
     ins = case["sampler"] == "ins"
     model = zoo.make(case["model"])
-    kw = (ins_kwargs if ins else std_kwargs)(dict(case["kwargs"], seed=case["seed"]))
+    ckw = dict(case["kwargs"], seed=case["seed"])
+    if not ins:
+        # Calibration of the standard sampler presupposes a proposal that covers the likelihood contour: with the tiny flows used by the structural checks
+        # (2 blocks x 4 neurons, 10 epochs) the latent contour under-covers and log Z comes out +0.05 (2-d) to +0.25 (4-d) too large — measured, and gone
+        # (-0.004 +- 0.04 at 32 seeds) with this still small but adequately trained flow.  That bias is a property of the configuration, not a defect.
+        ckw["flow_config"] = {**dict(n_blocks=4, n_neurons=16, n_layers=2), **ckw.get("flow_config", {})}
+        ckw["training_config"] = {**dict(max_epochs=200, patience=20), **ckw.get("training_config", {})}
+    kw = (ins_kwargs if ins else std_kwargs)(ckw)
     if ins:
         kw["max_iteration"] = 60
     res = dict(cell=case["cell"], seed=case["seed"])
